@@ -21,7 +21,7 @@ def run(ctx):
     feats = {}
     try:
         for name, over, sample in CFGS[ctx.tier]:
-            st = storelib.StoreRun(ctx, name, over, sample=sample,
+            st = storelib.StoreRun(ctx, name, dict(over, EmitSel='"crash-wal"'),  sample=sample,
                                    select=lambda sc: any(s["a"] == "crash" and s["at"] == "wal" for s in sc["steps"])).run(pool, storelib.default_violation(ctx), cov)
             for k, v in st["feats"].items():
                 feats[k] = feats.get(k, 0) + v
